@@ -184,11 +184,11 @@ def c06(tier):
     return us + [twin(us[0]), twin(us[-1])]
 
 
-def stall_len(integ, phys, K, fs, lead_empty=False):
+def stall_len(integ, phys, K, fs, lead_empty=False, mid_empty=False, long=False):
     """length of the concrete stream a stall/cut unit works on (computed natively at planning time)"""
     import importlib
     fl = importlib.import_module("vpkg.harness.flow")
-    return len(fl.make_stream(integ, phys, K, fs, lead_empty)[0])
+    return len(fl.make_stream(integ, phys, K, fs, lead_empty, mid_empty, long)[0])
 
 
 @prop("C11", functions=["pyjelly/serialize/flows.py:BoundedFrameFlow.__init__", "pyjelly/serialize/flows.py:BoundedFrameFlow.frame_from_bounds", "pyjelly/serialize/flows.py:FrameFlow.to_stream_frame",
@@ -267,7 +267,7 @@ def c09(tier):
 
 
 @prop("C10", functions=IO_FUNCS,
-      bounds={"quick": {"cut": "every byte offset 0..len (symbolic k) of 3-statement delimited streams, frame_size 1 and 2, TRIPLES/QUADS, both integrations"},
+      bounds={"quick": {"cut": "every byte offset 0..len (symbolic k) of 3-statement delimited streams, frame_size 1 and 2, TRIPLES/QUADS, both integrations; also with an empty frame in mid-stream and with frames >= 128 bytes (two-byte length prefixes)"},
               "thorough": {"cut": "4-statement streams, frame sizes 1,2,3, leading empty frames"}},
       outside="long streams (frame-at-a-time argument: a frame is decoded only after parse_length_prefixed returned it)",
       explanation="H-CUT: items yielded before end/exception are a prefix of the original sequence and contain every statement of every frame lying completely inside data[:k]")
@@ -280,6 +280,16 @@ def c10(tier):
                 for le in ([False] if tier == "quick" else [False, True]):
                     n = stall_len(integ, phys, K, fs, le)
                     us.append(U(f"cut:{integ}:p{phys}:fs{fs}:le{int(le)}", "iosched", "cut", dict(integ=integ, phys=phys, K=K, fs=fs, lead_empty=le, len=n), timeout=600))
+    # an empty frame in the middle of the stream; frames >= 128 bytes (two-byte length prefixes)
+    for integ in ("generic", "rdflib"):
+        for phys in ((1, 2) if tier != "quick" or integ == "generic" else (1,)):
+            n = stall_len(integ, phys, K, 1, False, True, False)
+            us.append(U(f"cut:{integ}:p{phys}:fs1:mid-empty", "iosched", "cut", dict(integ=integ, phys=phys, K=K, fs=1, mid_empty=True, len=n), timeout=600))
+            n = stall_len(integ, phys, K, 1, False, False, True)
+            parts = 4
+            for q in range(parts):
+                lo, hi = q * (n + 1) // parts, (q + 1) * (n + 1) // parts - 1
+                us.append(U(f"cut:{integ}:p{phys}:fs1:long:{lo}-{hi}", "iosched", "cut", dict(integ=integ, phys=phys, K=K, fs=1, long=True, len=n, lo=lo, hi=hi), timeout=600))
     return us + [twin(us[0])]
 
 
